@@ -1992,7 +1992,7 @@ def g_misc(g, p):
         dims = sorted(d % len(s) for d in g.dims(len(s), min_n=1))
         if form == "prims_sum":
             return [g.tensor(s, dt, "small"), dims], {}
-        return [g.tensor(s, dt, "small"), dims] + ([g.pick([1.0, 0.0, 1, 0])] if g.chance(80) else []), {}
+        return [g.tensor(s, dt, "small"), dims] + ([g.pick([1.0, 0.0, 1, 0, 0.5, 1.5, 0.25])] if g.chance(80) else []), {}
     if form == "det":
         dt = g.dt(["float32", "float64"])
         n = g.pick([1, 2, 3, 4])
